@@ -191,10 +191,6 @@ Section D.
     exists u, w. auto.
   Qed.
 
-  (* ---------------------------------------------------------------- rand_index *)
-  Lemma rand_index_inv n ds i ds' : rand_index n ds = Some (i, ds') -> True.
-  Proof. auto. Qed.
-
   (* ---------------------------------------------------------------- standard_crossover *)
   Definition syms_from (ps : list (ptree sym)) (c : ptree sym) : Prop :=
     forall x, In x (fst c) -> exists p, In p ps /\ In x (fst p).
@@ -425,9 +421,6 @@ Section D.
   (* function symbols take arguments, terminals (and whatever an ephemeral generator returns) do not *)
   Definition uniset_ok (U : uniset) : Prop :=
     (forall s, In s (u_funcs U) -> 1 <= arity s) /\ (forall s, term_of U s -> arity s = 0).
-
-  Lemma sample_index_inv n ds i ds' : sample_index n ds = Some (i, ds') -> True.
-  Proof. auto. Qed.
 
   Lemma random_terminal_spec U ds s ds' : random_terminal U ds = Some (s, ds') -> term_of U s.
   Proof.
